@@ -13,6 +13,7 @@ from ..harness import VERIF, inconclusive, ok, skipped, violation
 
 ID = 'C07'
 ENGINE = 'crosshair'
+SOLVER_NAME = 'CrossHair 0.0.110 (symbolic execution of Python, z3 inside); solver time = wall time of the CrossHair runs'
 LEVEL = 'other'
 TECHNIQUE = 'CrossHair (z3-backed symbolic execution) of the real AlgebraicReductionRule/IdentityRule/HomothetyRule.apply on symbolic chains over a rule table extracted from the real registry; real chains enumerated to validate the abstraction'
 EXPLANATION = ('Layer 1: every registered binary rule is attempted on every ordered pair of 24 real operator instances; the outcome is the abstract '
